@@ -264,9 +264,13 @@ func Execve(t *rapid.T, max int) kenc.Rec {
 // Proctitle draws a PROCTITLE record (NUL-joined command line, untrusted-string
 // encoded) and returns the expected decoded title.
 func Proctitle(t *rapid.T) (kenc.Rec, string) {
-	n := rapid.IntRange(1, 4).Draw(t, "nargs")
+	n := rapid.IntRange(1, 5).Draw(t, "nargs")
 	var parts []string
 	for i := 0; i < n; i++ {
+		if i > 0 && rapid.IntRange(0, 4).Draw(t, "emptyarg") == 0 {
+			parts = append(parts, "") // an empty argv element: two NULs in a row (or a trailing NUL)
+			continue
+		}
 		parts = append(parts, string(Val(t, "ptarg", ValOpts{MaxLen: 12})))
 	}
 	raw := strings.Join(parts, "\x00")
